@@ -1,4 +1,5 @@
 import Rtsp.Proofs.FrameRT3
+import Rtsp.Proofs.FrameRT4
 import Rtsp.Proofs.FrameLimits3
 import Rtsp.Proofs.B64Stream
 /-
@@ -52,6 +53,40 @@ multi-values, body, channel, payload), and the stream ends cleanly. -/
 theorem parse_serialize (up : Bytes → Option Bytes) (ms : List Elem) (h : ∀ m ∈ ms, WellFormed up m) :
     parseAll up (serializeAll ms) = (ms, .eof) :=
   Rtsp.Frame.parse_serialize up ms h
+
+/-- **parse_serialize, map form**: the header is a Go map (keys distinct, no order), the caller does
+not maintain `Content-Length` and may leave the status message to the default table; what is read
+back is the message as `Marshal` completed it (`canon`: keys sorted, `Content-Length` set for a
+non-empty body, default status message filled in). -/
+theorem parse_serialize_map (up : Bytes → Option Bytes) (ms : List Elem) (h : ∀ m ∈ ms, WritableOK up m) :
+    parseAll up (serializeAll ms) = (ms.map canon, .eof) :=
+  Rtsp.Frame.parse_serialize_map up ms h
+
+theorem writableOK_iff (up : Bytes → Option Bytes) (e : Elem) : WritableOK up e ↔
+    match e with
+    | .req r =>
+      (∃ b0 b1 t, r.method = b0 :: b1 :: t ∧ isReqPrefix b0 b1 = true) ∧
+      SP ∉ r.method ∧ r.method.length < requestMaxMethodLength ∧
+      (∀ u, r.url = some u → u ≠ star ∧ SP ∉ u ∧ u.length < requestMaxURLLength ∧ up u = some u) ∧
+      HeaderMapOK (withContentLength r.header r.body) ∧ r.body.length ≤ rtspMaxBodySize ∧
+      (r.body = [] → hlookup r.header kContentLength = none)
+    | .res r =>
+      r.code < 1000 ∧ CR ∉ effectiveMessage r ∧ (effectiveMessage r).length < responseMaxStatusMessageLength ∧
+      HeaderMapOK (withContentLength r.header r.body) ∧ r.body.length ≤ rtspMaxBodySize ∧
+      (r.body = [] → hlookup r.header kContentLength = none)
+    | .frame f => FrameOK f := by
+  cases e <;> exact Iff.rfl
+
+theorem headerMapOK_iff (h : Header) : HeaderMapOK h ↔
+    ((∀ e ∈ h, KeyOK e.1 ∧ e.2 ≠ [] ∧ ∀ v ∈ e.2, ValueOK v) ∧ (keysOf h).Nodup ∧
+     entryCount h ≤ headerMaxEntryCount) := Iff.rfl
+
+theorem canon_def (e : Elem) : canon e =
+    match e with
+    | .req r => .req { r with header := sortKeys (withContentLength r.header r.body) }
+    | .res r => .res { r with header := sortKeys (withContentLength r.header r.body), msg := effectiveMessage r }
+    | .frame f => .frame f := by
+  cases e <;> rfl
 
 /-- **chunk_independent**: for every byte stream (well-formed or not) and every partition of it
 into reads — 1-byte reads and empty reads included — the chunked reader returns the element
@@ -262,6 +297,31 @@ theorem sample_wellFormed :
     · exact ⟨⟨by decide, 67, str "Seq", by decide, by decide, by decide, by decide⟩, by decide, by decide⟩
     · exact ⟨⟨by decide, 82, str "TP-Info", by decide, by decide, by decide, by decide⟩, by decide, by decide⟩
   · exact ⟨by decide, by decide⟩
+
+/-- non-vacuity of `parse_serialize_map`: header keys out of order, body without `Content-Length`,
+status message left to the default table -/
+def sampleUnsorted : Response :=
+  { code := 200, msg := [], header := [(str "Session", [str "x"]), (kCSeq, [str "9"])], body := str "hello" }
+
+theorem sampleUnsorted_writable : WritableOK (fun u => some u) (.res sampleUnsorted) := by
+  refine ⟨by decide, by decide, by decide, ⟨?_, by decide, by decide⟩, by decide, by decide⟩
+  intro e he
+  have : e = (str "Session", [str "x"]) ∨ e = (kCSeq, [str "9"]) ∨ e = (kContentLength, [toDec 5]) := by
+    have h2 : withContentLength sampleUnsorted.header sampleUnsorted.body =
+        [(str "Session", [str "x"]), (kCSeq, [str "9"]), (kContentLength, [toDec 5])] := by decide
+    rw [h2] at he
+    simpa using he
+  rcases this with rfl | rfl | rfl
+  · exact ⟨⟨by decide, 83, str "ession", by decide, by decide, by decide, by decide⟩, by decide, by decide⟩
+  · exact ⟨⟨by decide, 67, str "Seq", by decide, by decide, by decide, by decide⟩, by decide, by decide⟩
+  · exact ⟨⟨by decide, 67, str "ontent-Length", by decide, by decide, by decide, by decide⟩, by decide, by decide⟩
+
+example : parseAll (fun u => some u) (serializeAll [.res sampleUnsorted]) =
+    ([.res { code := 200, msg := str "OK",
+             header := [(kCSeq, [str "9"]), (kContentLength, [str "5"]), (str "Session", [str "x"])],
+             body := str "hello" }], .eof) := by
+  rw [parse_serialize_map _ _ (by intro m hm; simp only [List.mem_singleton] at hm; subst hm; exact sampleUnsorted_writable)]
+  decide
 
 /-- the hypotheses of `parse_serialize` / `roundtrip_any_chunking` are satisfiable by a mixed
 sequence with a body, multi-valued and empty header values and a frame whose payload starts with `$` -/
